@@ -13,12 +13,14 @@ RULE = (
     "(halo=0), mode counts below/at/above/default, 1..2 levels, a source, integer cell shifts (sx,sy) in [-n, n] (wrap-around "
     "included), and an on-grid tower. Oracles: S(roll(q0,s)) == roll(S(q0),s); footprint(tower+s) == roll(footprint(tower), s); "
     "footprint_m[j,i] == R[(2jm-j) mod ny, (2im-i) mod nx] with R the dispersion response to a unit source in the tower cell; for "
-    "even nx,ny a dispersion run with meas_pt on the grid returns roll(field, centre - tower), so out[ny/2,nx/2] == field[jm,im]. "
+    "even nx,ny a dispersion run with meas_pt on the grid returns roll(field, centre - tower), so out[ny/2,nx/2] == field[jm,im]; "
+    "with a halo (default / whole / fractional cells) the footprints for two on-grid towers agree on the overlap of the window "
+    "shifted by their cell offset, and the footprint is the point reflection of the unit-source response inside the window. "
     "Non-trivial = shift non-zero modulo the grid in at least one axis and a source that is not translation invariant; distinct = "
     "canonical JSON."
 )
 ASSUMPTIONS = [
-    "halo = 0 so that the whole periodic domain is observed",
+    "source translation and re-centring are checked with halo = 0 (whole periodic domain observed); tower translation and point reflection also with halos, on the part of the window where both cells are visible",
     "off-grid measurement points are not asserted (spectral interpolation has no independent oracle)",
     "shooting growth bounded by exp(13.8) by construction",
 ]
@@ -43,6 +45,8 @@ def _case(draw):
     case["tower"] = draw(gen.tower(case))
     case["shift"] = [draw(st.integers(-case["nx"], case["nx"])), draw(st.integers(-case["ny"], case["ny"]))]
     case["bg"] = draw(st.sampled_from([0.0, 1.0]))
+    case["halo"] = draw(gen.halo(case, kinds=("none", "cells", "frac")))
+    case["tower2"] = draw(gen.tower(case))
     return case
 
 
@@ -111,6 +115,52 @@ def check_case(case):
         fcc = sut.as3d(fc)[:, ny // 2, nx // 2]
         if not tol.maxabs(fcc - sut.as3d(f0)[:, jm, im]) <= rel * tol.maxabs(f0):
             out.bad("value at the domain centre of the re-centred run is not the field value at the measurement point")
+
+    # 5. with a halo the returned window is a crop of the padded periodic domain: moving the tower by whole
+    #    cells moves the footprint by the same cells wherever both cells lie inside the window, and the
+    #    footprint is still the point reflection of the unit-source response about the tower
+    if "halo" in case:
+        hv = case["halo"]["value"]
+        kwh = dict(kw, halo=hv)
+        ia, ja = case["tower"]
+        ib, jb = case["tower2"]
+        tx, ty = ib - ia, jb - ja
+        _, ca, fa = sut.S(q0, z, prof, dom, lv, meas_pt=(ia * dx, ja * dy), footprint=True, **kwh)
+        _, cb, fb = sut.S(q0, z, prof, dom, lv, meas_pt=(ib * dx, jb * dy), footprint=True, **kwh)
+        ca, fa, cb, fb = (sut.as3d(a) for a in (ca, fa, cb, fb))
+        if fa.shape == fb.shape == (len(lv), ny, nx):
+            # b[j, i] == a[j - ty, i - tx] on the overlap
+            def ov(a_, b_):
+                ya = slice(max(0, -ty), ny - max(0, ty))
+                yb = slice(max(0, ty), ny - max(0, -ty))
+                xa = slice(max(0, -tx), nx - max(0, tx))
+                xb = slice(max(0, tx), nx - max(0, -tx))
+                return a_[:, ya, xa], b_[:, yb, xb]
+
+            for name, a_, b_ in (("conc", ca, cb), ("flux", fa, fb)):
+                A, B = ov(a_, b_)
+                scale = max(tol.maxabs(a_), tol.maxabs(b_))
+                if A.size and not tol.maxabs(A - B) <= rel * scale:
+                    out.bad(f"halo {hv}: footprint {name} for tower {(ib, jb)} is not the footprint for {(ia, ja)} moved by "
+                            f"{(tx, ty)} cells (max difference {tol.maxabs(A - B):.3e} > {rel * scale:.3e})")
+            d2 = np.zeros((ny, nx))
+            d2[ja, ia] = 1.0
+            _, cr2, fr2 = sut.S(d2, z, prof, dom, lv, **kwh)
+            cr2, fr2 = sut.as3d(cr2), sut.as3d(fr2)
+            jj = 2 * ja - np.arange(ny)
+            ii = 2 * ia - np.arange(nx)
+            okj = (jj >= 0) & (jj < ny)
+            oki = (ii >= 0) & (ii < nx)
+            for name, fp_, r_ in (("conc", ca, cr2), ("flux", fa, fr2)):
+                A = fp_[:, okj][:, :, oki]
+                B = r_[:, jj[okj]][:, :, ii[oki]]
+                scale = max(tol.maxabs(fp_), tol.maxabs(r_))
+                if A.size and not tol.maxabs(A - B) <= rel * scale:
+                    out.bad(f"halo {hv}: footprint {name} for tower {(ia, ja)} is not the point reflection of the unit-source "
+                            f"response about the tower (max difference {tol.maxabs(A - B):.3e} > {rel * scale:.3e})")
+        else:
+            out.bad(f"halo {hv}: footprint shapes {fa.shape}, {fb.shape}")
+        out.label(f"halo={case['halo']['kind']}", "tower-at-origin" if (ia, ja) == (0, 0) or (ib, jb) == (0, 0) else "tower-off-origin")
 
     varying = tol.maxabs(q0 - q0.flat[0]) > 0
     out.nontrivial = bool(varying and (sx % nx != 0 or sy % ny != 0))
